@@ -51,10 +51,20 @@ class Sim:
         self.init = set(init)
         self.explorable = [s for s in range(1 << self.n) if s not in self.init]
 
+        # some callers prepare a list of hidden games once and cycle through the same OBJECTS (a legal generator);
+        # the harness has asked those objects for all their values before (as any validation of a prepared list would)
+        self.prepared = None
+        if cfg.get("same_objects"):
+            self.prepared = [libgames.spec_game(s) for s in self.specs]
+            for g_ in self.prepared:
+                g_.get_values()
+
         def gen():
-            spec = self.specs[self.calls % len(self.specs)]
+            k = self.calls % len(self.specs)
             self.calls += 1
-            return libgames.spec_game(spec)
+            if self.prepared is not None:
+                return self.prepared[k]
+            return libgames.spec_game(self.specs[k])
 
         inc = repo.new_game(self.n, self.comp)
         self.env = ICG_Gym(inc, gen, repo.coals(init), _gap_fn(self.gap), done_after_n_actions=self.budget)
@@ -267,7 +277,8 @@ def configs(draw, n_min: int, n_max: int, lib_only=None, sam_only: bool = False)
         rest = [s for s in range(1 << n) if s not in mins]
         extra = draw(st.lists(st.sampled_from(rest), max_size=2, unique=True))
     return {"n": n, "games": games, "computer": comp, "gap": draw(st.sampled_from(GAPS)),
-            "budget": draw(st.sampled_from([None, None, 1, 2, 4, 0])), "extra_known": sorted(extra)}
+            "budget": draw(st.sampled_from([None, None, 1, 2, 4, 0])), "extra_known": sorted(extra),
+            "same_objects": draw(st.integers(0, 3)) == 0}
 
 
 def make_machine(n_min: int, n_max: int, sam_only: bool = False):
